@@ -1,6 +1,6 @@
 CONSTANTS
   Server = {1, 2, 3}
-  Campaigners = {1, 2, 3}
+  Campaigners = {1}
   MaxTerm = 1
   MaxProposals = 1
   MaxCrashes = 1
@@ -8,7 +8,7 @@ CONSTANTS
   MaxDups = 1
   MaxHeartbeats = 1
   MaxLog = 3
-  MaxNet = 4
+  MaxNet = 3
   MaxEnts = 0
   LossySend = FALSE
   SimDepth = 0
